@@ -496,13 +496,19 @@ def prepare(c):
     c["regex_leaves"] = rl
 
 
-def main(run):
-    info = proof_stage(run, "C18", extra_targets=["corr/C18_corr.vo"])
-    harness_build()
+def main(run, only=None, only_b64=None, envs=None, behaviour=False):
+    """only / only_b64: the definition cases / base64 cases of a replay; envs: the journals the definitions of `only` are
+    applied to when behaviour is set (no generation, no proof stage, no F15 bookkeeping, no verdict)"""
+    replaying = only is not None or only_b64 is not None
     r = run.rng
     quick = run.tier == "quick"
-    envs = [make_env(r) for _ in range(3 if quick else 8)]
-    cases = load_corpus() + gen_cases(run, 260 if quick else 4000, envs)
+    if not replaying:
+        info = proof_stage(run, "C18", extra_targets=["corr/C18_corr.vo"])
+        harness_build()
+        envs = [make_env(r) for _ in range(3 if quick else 8)]
+        cases = load_corpus() + gen_cases(run, 260 if quick else 4000, envs)
+    else:
+        cases, envs = (only or []), (envs or [])
     for c in cases:
         prepare(c)
     # --- implementation: codec op, regex validity of every string involved
@@ -557,7 +563,7 @@ def main(run):
     alpha = "ABCDEFGHIJKLMNOPQRSTUVWXYZabcdefghijklmnopqrstuvwxyz0123456789+/"
     b64_in = ["", "QQ==", "QQ", "QR==", "QUI=", "QUJ=", "QUJD", "QUJDRA==", "====", "Q===", "QQ=Q", "=QQ=", "QQ==QQ==", "QUJD\n",
               "base64:QQ==", "QQ=", "QUJDR"]
-    for _ in range(60 if quick else 1500):
+    for _ in range((60 if quick else 1500) if not replaying else 0):
         n = r.choice([0, 1, 2, 3, 4, 5, 6, 7, 8, 9, 12, 16])
         raw = bytes(r.getrandbits(8) for _ in range(n))
         t = base64.b64encode(raw).decode("ascii")
@@ -573,8 +579,13 @@ def main(run):
         else:
             t = "".join(r.choice(alpha + "=") for _ in range(r.choice([4, 8, 8, 12])))
         b64_in.append(t)
+    if replaying:
+        b64_in = [t for t in (only_b64 or []) if isinstance(t, str)]
     bres = harness_run([{"kind": "b64_decode", "s": t} for t in b64_in])
-    b64_enc_in = [[r.getrandbits(8) for _ in range(n)] for n in range(0, 10)] + [[0, 0, 0], [255, 255, 255], [255], [0], [251, 255]]
+    if not replaying:
+        b64_enc_in = [[r.getrandbits(8) for _ in range(n)] for n in range(0, 10)] + [[0, 0, 0], [255, 255, 255], [255], [0], [251, 255]]
+    else:
+        b64_enc_in = [list(t) for t in (only_b64 or []) if isinstance(t, list)]
     eres = harness_run([{"kind": "b64_encode", "bytes": b} for b in b64_enc_in])
     bterms = []
     for t, rr in zip(b64_in, bres):
@@ -602,6 +613,7 @@ def main(run):
         if len(run.cov["samples"]) < 4 and (acc or len(run.cov["samples"]) < 2):
             run.cov["samples"].append({"definition": c["s"][:400], "injected": c["tags"], "implementation": c["impl"], "bits": bits})
         rep = {"definition_text": c["s"], "injected": c["tags"], "source": c["src"], "implementation_output": c["impl"],
+               "case": {"stream": "codec", "clean": bool(c["clean"]), "expect": c.get("expect")},
                "replay_hint": "harness: {\"kind\":\"filter_codec\",\"s\":<definition_text>} ; CLI: tackler --api-filter-def <definition_text>"}
         if c["f15"]:
             # a valid pattern (e.g. verbose mode with a trailing comment) rejected because of the wrapper
@@ -641,7 +653,9 @@ def main(run):
         elif not (bits & 1):
             run.violation("correspondence broken: model b64_enc/b64_dec differs from base64 STANDARD engine",
                           {"base64_case": t, "correspondence": "C18_corr.c18_b64_case"}, found_input=False)
-    if "F15" in findings and findings["F15"].get("status") == "open":
+    if replaying:
+        pass
+    elif "F15" in findings and findings["F15"].get("status") == "open":
         if f15_seen:
             run.known_finding(findings["F15"]["what"])
         else:
@@ -653,8 +667,12 @@ def main(run):
     # --- behaviour: the given, the re-serialised and the armored definition select the same transactions
     toml = J.make_toml()
     breqs, bmeta = [], []
-    budget = 70 if quick else 600
-    order = sorted(range(len(cases)), key=lambda j: (0 if cases[j].get("whole") is not None else 1 if cases[j].get("selective") else 2, j))
+    budget = (70 if quick else 600) if not replaying else (len(cases) if behaviour else 0)
+    if replaying and not behaviour:
+        cases_b = []
+    else:
+        cases_b = cases
+    order = sorted(range(len(cases_b)), key=lambda j: (0 if cases[j].get("whole") is not None else 1 if cases[j].get("selective") else 2, j))
     for j in order:
         c = cases[j]
         if "accepted" not in c["impl"] or (budget <= 0 and c.get("whole") is None):
@@ -694,15 +712,19 @@ def main(run):
             if exp != ref:
                 run.violation("a description pattern is not applied as one whole-string match",
                               {"definition_text": c["s"], "pattern": c["whole"], "journal": envs[ei][1],
-                               "selected": list(ref), "expected_whole_string_matches": list(exp)})
+                               "selected": list(ref), "expected_whole_string_matches": list(exp),
+                               "case": {"stream": "behaviour", "clean": bool(c["clean"]), "whole": c["whole"]}})
                 continue
         for k, t, sel in lst[1:]:
             if sel != ref:
                 run.violation("the same filter definition selects different transactions depending on its encoding "
                               "(given / re-serialised / armored)",
                               {"definition_text": c["s"], "other_encoding": t, "journal": envs[ei][1],
-                               "selected_given": list(ref), "selected_other": list(sel)})
+                               "selected_given": list(ref), "selected_other": list(sel),
+                               "case": {"stream": "behaviour", "clean": bool(c["clean"]), "whole": c.get("whole")}})
                 break
+    if replaying:
+        return None
     run.cov["distinct_nontrivial"] = len(distinct)
     run.cov["rule"] = ("corpus + seeded definitions: all 20 variants nested to depth 5, leaf spellings (patterns incl. anchors and the wrapper text, "
                        "decimal spellings as numbers and strings, time stamps in several offsets/separators/fractions, UUID formats), ~25% with an "
@@ -715,11 +737,34 @@ def main(run):
 
 
 def replay(run, path):
-    j = json.load(open(path))
-    print(json.dumps(j, indent=1, ensure_ascii=False)[:6000])
-    rep = j.get("replay", {})
-    s = rep.get("definition_text")
-    if s is not None:
+    """the stored definition text through the codec op + c18_case; a behaviour case additionally applied to the stored
+    journal in its encodings; a base64 case through the engine + c18_b64_case"""
+    j, rp, rc = replay_begin(run, path)
+    if rc is not None:
+        return rc
+    cs = rp.get("case") if isinstance(rp.get("case"), dict) else {}
+    print(j.get("what"))
+    if "base64_case" in rp:
+        print("base64 case: %r" % (rp["base64_case"],))
+        corr_build("C18")
         harness_build()
-        print(json.dumps(harness_run([{"kind": "filter_codec", "s": s}])[0], indent=1, ensure_ascii=False)[:3000])
-    return 0
+        main(run, only_b64=[rp["base64_case"]])
+        return replay_verdict(run, path, j, "the base64 engine treats the stored text / bytes as the model and the oracle say")
+    if not (isinstance(rp.get("definition_text"), str) and cs.get("stream") in ("codec", "behaviour")):
+        return replay_print(j)
+    print("definition text: %s" % rp["definition_text"][:3000])
+    c = {"s": rp["definition_text"], "tags": list(rp.get("injected") or []), "clean": bool(cs.get("clean")), "expect": cs.get("expect"),
+         "src": "replay", "env": None, "selective": False}
+    corr_build("C18")
+    harness_build()
+    if cs["stream"] == "behaviour":
+        if cs.get("whole") is not None:
+            c["whole"] = cs["whole"]
+        print("journal:\n%s" % rp.get("journal"))
+        c["env"] = 0
+        main(run, only=[c], envs=[(None, rp["journal"])], behaviour=True)
+    else:
+        main(run, only=[c])
+    print("implementation now: %s" % json.dumps(c.get("impl"), ensure_ascii=False)[:3000])
+    return replay_verdict(run, path, j, "the stored filter definition is accepted / rejected and re-serialised as specified, the model agrees%s (bits %s)"
+                          % (", and its encodings select the same transactions" if cs["stream"] == "behaviour" else "", c.get("bits")))
